@@ -196,3 +196,12 @@ Definition pmt_psi (v a : Z) : psi :=
 
 (* PackPmt(videoCodecId, audioCodecId int) *)
 Definition pack_pmt (v a : Z) : bytes := fit 188 255 ([71; 80; 1; 16] ++ psi_pack (pmt_psi v a)).
+
+(* PackPmtWithVersion(videoCodecId, audioCodecId, version) (added by the C06 fix
+   "a track that starts after the probe window is announced by a new version of
+   the pmt"): version_number = version & 0x1f.  PackPmt is version 0. *)
+Definition pmt_psi_ver (v a : Z) (ver : N) : psi :=
+  {| psi_pointer := 0; psi_table_id := 2; psi_ssi := 1; psi_tid_ext := 1; psi_version := ver mod 32;
+     psi_cni := 1; psi_secnum := 0; psi_lastsec := 0; psi_pat := [];
+     psi_pcr_pid := 256; psi_prog_info_len := 0; psi_pmt := pmt_streams v a |}.
+Definition pack_pmt_ver (v a : Z) (ver : N) : bytes := fit 188 255 ([71; 80; 1; 16] ++ psi_pack (pmt_psi_ver v a ver)).
